@@ -117,7 +117,7 @@ func run(c *vf.Ctx) {
 	if w, _ := dupIn([]entry{{ID: "a", Addr: "x"}, {ID: "b", Addr: "y"}}); w != "" {
 		panic("dup detector: clean")
 	}
-	nHist := c.N(6, 100)
+	nHist := c.N(8, 100)
 	nOps := c.N(8, 12)
 	if c.ReplayFile != "" {
 		nHist = 3 // the same formation + operation kinds, three times
